@@ -167,6 +167,7 @@ class SLE(Equilibrium, phases='ls'):
         self._chemical = None # Only set if the solute is the single chemical in equilibrium
         if self._nonzero == nonzero:
             index = self._index
+            self._solute_gamma_index = index.index(solute_index) # The solute may not be the one of the last call
         else:
             chemicals = self.chemicals
             # Set up indices for both equilibrium and non-equilibrium species
